@@ -437,6 +437,169 @@ def cwd_case(ctx, client, root_s, root_t, idx, am_root, transport="pipe"):
                 pass
 
 
+HISTORIES = ("fresh", "after seek", "after unbuffered read", "after buffered read with read-ahead", "after readline",
+             "after write pending")
+AFTERS = ("write", "read", "tell", "close")
+HIST_CELLS = [(h, a) for h in HISTORIES for a in AFTERS]
+
+
+class OsFile:
+    """os-level model of a read/write file handle: explicit position, pread/pwrite/ftruncate on the twin file."""
+
+    def __init__(self, path):
+        self.fd = os.open(path, os.O_RDWR)
+        self.pos = 0
+
+    def seek(self, n):
+        self.pos = n
+
+    def read(self, n):
+        d = os.pread(self.fd, n, self.pos)
+        self.pos += len(d)
+        return d
+
+    def readline(self):
+        out = b""
+        while True:
+            d = os.pread(self.fd, 4096, self.pos + len(out))
+            if not d:
+                break
+            i = d.find(b"\n")
+            if i >= 0:
+                out += d[:i + 1]
+                break
+            out += d
+        self.pos += len(out)
+        return out
+
+    def write(self, data):
+        os.pwrite(self.fd, data, self.pos)
+        self.pos += len(data)
+
+    def truncate(self, n):
+        os.ftruncate(self.fd, n)
+
+    def close(self):
+        os.close(self.fd)
+
+
+def handle_history_case(ctx, client, root_s, root_t, idx, am_root, transport="pipe"):
+    """Cells 'handle history before truncate' x 'operation after': SFTPFile.truncate(k) on a handle that already has
+    a position / read-ahead / pending writes, then one more call through the same handle. Oracle: the same calls on
+    an os-level model (pread/pwrite/ftruncate with an explicit position) of a twin file: returned bytes, tell() and the
+    file bytes after close must agree."""
+    rng = ctx.rng
+    hist, after = HIST_CELLS[(idx // 8 + ctx.shard * 7) % len(HIST_CELLS)]
+    name = "h%d" % idx
+    served, twin = os.path.join(root_s, name), os.path.join(root_t, name)
+    size = rng.choice([50, 300, 5000, 20000, 70000])
+    data = bytes(rng.choice(b"abcdefghij\n" if rng.random() < 0.7 else bytes(range(1, 256))) for _ in range(size))
+    if size:
+        data = bytes([data[0] | 1]) + data[1:]
+    for p in (served, twin):
+        with open(p, "wb") as f:
+            f.write(data)
+    if hist == "after buffered read with read-ahead":
+        bufsize = rng.choice([64, 4096, 32768])
+    elif hist == "after write pending":
+        bufsize = rng.choice([64, 4096, 32768])
+    elif hist == "after unbuffered read":
+        bufsize = rng.choice([-1, 0])
+    else:
+        bufsize = rng.choice([-1, 0, 64, 32768])
+    pre = []
+    if hist == "after seek":
+        pre = [("seek", rng.choice([0, 1, size // 2, size, size + 10]))]
+    elif hist == "after unbuffered read":
+        pre = [("seek", rng.choice([0, size // 3])), ("read", rng.choice([1, 10, 100]))]
+    elif hist == "after buffered read with read-ahead":
+        pre = [("seek", rng.choice([0, size // 3])), ("read", rng.choice([1, 10, 40]))]
+    elif hist == "after readline":
+        pre = [("seek", rng.choice([0, 0, size // 3])), ("readline",)]
+        if rng.random() < 0.3:
+            pre.append(("readline",))
+    elif hist == "after write pending":
+        pre = [("seek", rng.choice([0, size // 2, size])), ("write", rng.choice([1, 5, 30]))]
+    k = rng.choice([0, 1, size // 4, size // 2, size, size + 100, rng.randint(0, size)])
+    arg = rng.choice([1, 7, 50, 500]) if after in ("write", "read") else None
+    desc = dict(kind="file", by="handle", history=hist, bufsize=bufsize, pre=pre, truncate_to=k, after=after,
+                after_arg=arg, size=size, transport=transport)
+    ctx.case(("hist", hist, after, bufsize, tuple(pre), k, arg, size, transport), sample=desc if idx % 61 == 2 else None)
+    fobj = model = None
+    try:
+        fobj = client.open("/" + name, "r+b", bufsize)
+        model = OsFile(twin)
+        comparable = True
+        for st in pre:
+            if st[0] == "seek":
+                fobj.seek(st[1])
+                model.seek(st[1])
+            elif st[0] == "read":
+                comparable &= fobj.read(st[1]) == model.read(st[1])
+            elif st[0] == "readline":
+                comparable &= fobj.readline() == model.readline()
+            else:
+                blob = bytes(rng.choice(b"ABCDEFGH") for _ in range(st[1]))
+                fobj.write(blob)
+                model.write(blob)
+        if not comparable:
+            ctx.count("hist_cases_history_reads_differ_not_judged")
+            return
+        ra = len(fobj._rbuffer) > 0
+        pend = len(fobj._wbuffer.getvalue()) > 0
+        if ra:
+            ctx.count("hist_truncates_with_readahead_buffered")
+        if pend:
+            ctx.count("hist_truncates_with_writes_pending")
+        if fobj._realpos != fobj._pos:
+            ctx.count("hist_truncates_with_real_offset_ahead_of_position")
+        fobj.truncate(k)
+        model.truncate(k)
+        ctx.count("sftp_attr_calls")
+        ctx.count("hist %s | %s" % (hist, after))
+        wit = dict(case=desc)
+        got = want = None
+        if after == "write":
+            blob = bytes(rng.choice(b"WXYZ") for _ in range(arg))
+            fobj.write(blob)
+            model.write(blob)
+        elif after == "read":
+            got, want = fobj.read(arg), model.read(arg)
+        elif after == "tell":
+            got, want = fobj.tell(), model.pos
+        if got != want:
+            ctx.violation("truncate on a handle %s, then %s: the call returns something else than the os-level model"
+                          % (hist, after), "%s after truncate returned %r, the model %r" % (after, got, want),
+                          dict(wit, got=got, want=want))
+            return
+        ctx.count("hist_return_values_compared")
+        fobj.close()
+        fobj = None
+        model.close()
+        model = None
+        cs, ct = content(served), content(twin)
+        ctx.count("hist_final_content_comparisons")
+        if cs != ct:
+            n = next((i for i, (a, b) in enumerate(zip(cs, ct)) if a != b), min(len(cs), len(ct)))
+            ctx.violation("truncate on a handle %s, then %s: file bytes/size after close differ from the os-level model"
+                          % (hist, after), "served file %d bytes, model %d bytes, first difference at %d"
+                          % (len(cs), len(ct), n),
+                          dict(wit, served_len=len(cs), model_len=len(ct), first_diff=n,
+                               served_at=cs[max(n - 4, 0):n + 12], model_at=ct[max(n - 4, 0):n + 12]))
+    finally:
+        for f in (fobj, model):
+            if f is not None:
+                try:
+                    f.close()
+                except Exception:
+                    pass
+        for p in (served, twin):
+            try:
+                os.remove(p)
+            except OSError:
+                pass
+
+
 BUFSIZES = [-1, 1, 64, 32768]
 
 
@@ -576,6 +739,8 @@ def run_pipe(ctx, n, am_root):
                     target_kind_case(ctx, bench.client, root_s, root_t, done, am_root)
                 elif done % 8 == 6:
                     cwd_case(ctx, bench.client, root_s, root_t, done, am_root)
+                elif done % 8 == 2:
+                    handle_history_case(ctx, bench.client, root_s, root_t, done, am_root)
                 else:
                     one_case(ctx, bench.client, root_s, root_t, done, am_root)
                 done += 1
@@ -591,7 +756,7 @@ def run_pipe(ctx, n, am_root):
 def run_ssh(ctx, n, am_root):
     import paramiko
     from vf import pair
-    from vf.sftpbench import DirServer
+    from vf.sftpd2 import MonDirServer as DirServer  # raw (unbuffered) served files
 
     base = tempfile.mkdtemp(prefix="vf-c31s-")
     root_s, root_t = os.path.join(base, "served"), os.path.join(base, "twin")
@@ -612,6 +777,8 @@ def run_ssh(ctx, n, am_root):
                 target_kind_case(ctx, sftp, root_s, root_t, 100000 + i, am_root, transport="ssh")
             elif i % 8 == 6:
                 cwd_case(ctx, sftp, root_s, root_t, 100000 + i, am_root, transport="ssh")
+            elif i % 8 == 2:
+                handle_history_case(ctx, sftp, root_s, root_t, 100000 + i, am_root, transport="ssh")
             else:
                 one_case(ctx, sftp, root_s, root_t, 100000 + i, am_root, transport="ssh")
             ctx.count("ssh_cases")
@@ -637,6 +804,12 @@ def run(ctx):
     ctx.require("symlink_lstat_comparisons", ctx.pick(250, 5000))
     for form, opk in CWD_CELLS:
         ctx.require("cwd %s | %s" % (form, opk), ctx.pick(12, 300))
+    for h, a in HIST_CELLS:
+        ctx.require("hist %s | %s" % (h, a), ctx.pick(10, 250))
+    ctx.require("hist_final_content_comparisons", ctx.pick(350, 8000))
+    ctx.require("hist_truncates_with_readahead_buffered", ctx.pick(60, 1500))
+    ctx.require("hist_truncates_with_real_offset_ahead_of_position", ctx.pick(60, 1500))
+    ctx.require("hist_truncates_with_writes_pending", ctx.pick(30, 800))
     ctx.require("cwd_file_stat_comparisons", ctx.pick(1000, 20000))
     ctx.require("cwd_stat_readbacks_compared", ctx.pick(300, 8000))
     ctx.require("buffered_handle_final_comparisons", ctx.pick(500, 8000))
